@@ -476,7 +476,19 @@ class DeferredSender (threading.Thread):
       with self._lock:
         cons = list(self._dataForConnection.keys())
 
-      rlist, wlist, elist = select.select([self._waker], cons, cons, 5)
+      try:
+        rlist, wlist, elist = select.select([self._waker], cons, cons, 5)
+      except (ValueError, OSError):
+        # A connection was closed while data was still queued for it (its
+        # socket no longer has a valid fileno()).  Forget what is queued
+        # for connections which have gone away instead of letting this
+        # thread die, which would strand the data of every connection.
+        with self._lock:
+          dead = [con for con in cons if con.disconnected]
+          for con in dead:
+            self._dataForConnection.pop(con, None)
+        if not dead: raise
+        continue
       if not core.running: break
 
       with self._lock:
